@@ -38,6 +38,7 @@ use std::{
 
 use bitvec::{order::{Lsb0, Msb0}, vec::BitVec};
 use qbice_stable_type_id::{Identifiable, StableTypeID};
+use qv_harness::rng::Rng;
 use smallvec::SmallVec;
 
 // ------------------------------------------------------------------ terms
@@ -542,7 +543,7 @@ fn engine_aliasing(seed: u64) -> (usize, Vec<String>) {
 // ------------------------------------------------------------------ block-scoped items (the derive's naming premise)
 /// Two *different* types may carry the same `module_path!() :: Ident`: items declared inside
 /// function bodies.  Returns (id of first, id of second) for a few such pairs.
-fn block_scoped() -> Vec<(&'static str, &'static str, StableTypeID, StableTypeID)> {
+fn block_scoped() -> Vec<(&'static str, &'static str, StableTypeID, StableTypeID, Option<(Term, Term)>)> {
     fn a() -> (StableTypeID, StableTypeID) {
         #[derive(Identifiable)]
         #[stable_type_id_crate(qbice_stable_type_id)]
@@ -563,12 +564,15 @@ fn block_scoped() -> Vec<(&'static str, &'static str, StableTypeID, StableTypeID
     }
     let (a1, a2) = a();
     let (b1, b2) = b();
+    // how the model describes the second pair (TypeId/Structural.v twin_a / twin_b)
+    let loc = dname!("Loc").to_string();
+    let ta = Term::App("std::tuple::Tuple".into(), vec![u8::term(), Term::Der(loc.clone(), vec![String::term()])]);
+    let tb = Term::Der(loc, vec![String::term(), <(u8,)>::term()]);
     vec![
-        ("fn a { struct Local(u8) }", "fn b { struct Local(String, String) }", a1, b1),
-        ("(u8, Loc<String>) with fn a { struct Loc<T> }", "Loc<String, (u8,)> with fn b { struct Loc<T, U> }", a2, b2),
+        ("struct Local(u8) declared in fn a", "struct Local(String, String) declared in fn b", a1, b1, None),
+        ("(u8, Loc<String>) with struct Loc<T> declared in fn a", "Loc<String, (u8,)> with struct Loc<T, U> declared in fn b", a2, b2, Some((ta, tb))),
     ]
 }
-
 
 // ------------------------------------------------------------------ block-scoped query types in one engine
 /// `typeid <dir> probe`: two different query types that the derive names identically
@@ -635,6 +639,68 @@ fn probe() {
     });
 }
 
+// ------------------------------------------------------------------ random terms through the real functions at run time
+/// The const fns are ordinary functions too: random names (every length 0..=33, so every
+/// tail length and up to four 8-byte chunks) and random nestings are hashed by the real
+/// `from_unique_type_name` / `combine` at run time.  Used (a) as extra correspondence cases
+/// for the sip/combine model outside the name table, (b) as the additional search for a
+/// colliding pair when a proof or correspondence no longer checks.
+fn rand_name(r: &mut Rng) -> String {
+    const ALPHA: &[u8] = b"abcdefghijklmnopqrstuvwxyzABCDEFGHIJKLMNOPQRSTUVWXYZ0123456789_:@<>, &[];";
+    let len = if r.chance(1, 4) { r.below(9) } else { r.below(34) };
+    (0..len).map(|_| *r.pick(ALPHA) as char).collect()
+}
+/// a random signature: names that are leaves, built-in-style constructors, derived constructors of a fixed arity
+struct Pool { leaves: Vec<String>, apps: Vec<String>, ders: Vec<(String, u64)> }
+fn rand_pool(r: &mut Rng) -> Pool {
+    let mut seen: BTreeSet<String> = BTreeSet::new();
+    let mut fresh = |r: &mut Rng| loop { let n = rand_name(r); if seen.insert(n.clone()) { return n; } };
+    Pool {
+        leaves: (0..16).map(|_| fresh(r)).collect(),
+        apps: (0..12).map(|_| fresh(r)).collect(),
+        ders: (0..12).map(|_| { let n = fresh(r); (n, 1 + r.below(3)) }).collect(),
+    }
+}
+/// well formed for the pool's signature (a name has one kind; derived names one arity)
+fn rand_term(r: &mut Rng, depth: u32, pool: &Pool) -> Term {
+    if depth == 0 || r.chance(1, 4) { return Term::Leaf(r.pick(&pool.leaves).clone()); }
+    match r.below(8) {
+        0 => Term::Arr(Box::new(rand_term(r, depth - 1, pool)), match r.below(4) { 0 => r.below(5), 1 => r.next(), 2 => u64::MAX - r.below(2), _ => 1 << r.below(64) }),
+        1..=4 => { let wide = r.chance(1, 8); let n = 1 + r.below(if wide { 16 } else { 3 }); let h = r.pick(&pool.apps).clone(); Term::App(h, (0..n).map(|_| rand_term(r, depth - 1, pool)).collect()) }
+        _ => { let (h, n) = r.pick(&pool.ders).clone(); Term::Der(h, (0..n).map(|_| rand_term(r, depth - 1, pool)).collect()) }
+    }
+}
+fn real_name_id(n: &str) -> StableTypeID { StableTypeID::from_unique_type_name(Box::leak(n.to_string().into_boxed_str())) }
+/// the folds as the impls / the derive write them, on the real `combine`
+fn real_id(t: &Term) -> StableTypeID {
+    match t {
+        Term::Leaf(n) => real_name_id(n),
+        Term::App(n, a) => a.iter().fold(real_name_id(n), |acc, x| acc.combine(real_id(x))),
+        Term::Arr(e, n) => real_name_id("core::primitive::array").combine(real_id(e)).combine(unsafe { StableTypeID::from_raw_parts(*n, 0) }),
+        Term::Der(n, a) => a.iter().fold(real_name_id(n), |acc, x| real_id(x).combine(acc)),
+    }
+}
+fn coq_escape(t: &Term) -> String { let mut s = String::new(); t.coq(&mut s); s }
+
+/// `typeid <dir> search <n> <seed>`: n random terms, real ids, colliding pairs of different terms
+fn search(n: usize, seed: u64) {
+    let mut r = Rng::new(seed ^ 0xC14);
+    let pool = rand_pool(&mut r);
+    let mut seen: HashMap<(u64, u64), Term> = HashMap::new();
+    let mut collisions: Vec<String> = Vec::new();
+    let mut distinct = 0usize;
+    for _ in 0..n {
+        let t = rand_term(&mut r, 4, &pool);
+        let id = real_id(&t);
+        match seen.get(&(id.high(), id.low())) {
+            Some(u) if *u != t => collisions.push(format!("[{},{}]", jstr(&coq_escape(u)), jstr(&coq_escape(&t)))),
+            Some(_) => {}
+            None => { distinct += 1; seen.insert((id.high(), id.low()), t); }
+        }
+    }
+    println!("{{\"searched\":{n},\"distinct_terms\":{distinct},\"collisions\":[{}]}}", collisions.join(","));
+}
+
 fn jstr(s: &str) -> String {
     let mut o = String::from("\"");
     for c in s.chars() {
@@ -653,6 +719,10 @@ fn main() {
     let out_dir = args.get(1).cloned().unwrap_or_else(|| ".".into());
     let shards: usize = args.get(2).and_then(|s| s.parse().ok()).unwrap_or(16);
     if args.get(2).map(String::as_str) == Some("probe") { return probe(); }
+    if args.get(2).map(String::as_str) == Some("search") {
+        return search(args.get(3).and_then(|s| s.parse().ok()).unwrap_or(100_000), args.get(4).and_then(|s| s.parse().ok()).unwrap_or(1));
+    }
+    let free_n: usize = args.get(4).and_then(|s| s.parse().ok()).unwrap_or(320);
     let seed: u64 = args.get(3).and_then(|s| s.parse().ok()).unwrap_or(1);
     std::fs::create_dir_all(&out_dir).unwrap();
 
@@ -672,6 +742,54 @@ fn main() {
             let _ = writeln!(s, ") {} {}", r.hi, r.lo);
         }
         std::fs::write(format!("{out_dir}/shard_{k}.txt"), s).unwrap();
+    }
+    // free cases: random terms hashed by the real functions at run time, spread over the shards
+    let mut free_lens = [0usize; 40];
+    let mut free_distinct: BTreeSet<Term> = BTreeSet::new();
+    {
+        use std::io::Write as _;
+        let nshards = rows.chunks(per.max(1)).count();
+        let mut r = Rng::new(seed);
+        let pool = rand_pool(&mut r);
+        let mut bufs = vec![String::new(); nshards];
+        for i in 0..free_n {
+            // the first 34 are bare names of every length 0..=33
+            let t = if i < 34 { Term::Leaf((0..i).map(|j| (b'a' + ((i * 7 + j * 3) % 26) as u8) as char).collect()) } else { rand_term(&mut r, 3, &pool) };
+            let id = real_id(&t);
+            let mut a = Vec::new(); t.atoms(&mut a);
+            for n in a { if !n.contains('#') { free_lens[n.len().min(39)] += 1; } }
+            let b = &mut bufs[i % nshards];
+            b.push_str("Free (");
+            t.coq(b);
+            let _ = writeln!(b, ") {} {}", id.high(), id.low());
+            free_distinct.insert(t);
+        }
+        for (k, b) in bufs.iter().enumerate() {
+            let mut f = std::fs::OpenOptions::new().append(true).open(format!("{out_dir}/shard_{k}.txt")).unwrap();
+            f.write_all(b.as_bytes()).unwrap();
+        }
+    }
+    // the replayed finding goes to Coq as well (last shard), when the real ids are equal
+    let bs = block_scoped();
+    let mut twin_cases = 0usize;
+    {
+        let mut s = String::new();
+        for (_, _, a, b, terms) in &bs {
+            if let (true, Some((ta, tb))) = (a == b, terms) {
+                s.push_str("Twin (");
+                ta.coq(&mut s);
+                s.push_str(") (");
+                tb.coq(&mut s);
+                let _ = writeln!(s, ") {} {}", a.high(), a.low());
+                twin_cases += 1;
+            }
+        }
+        if twin_cases > 0 {
+            use std::io::Write as _;
+            let last = rows.chunks(per.max(1)).count() - 1;
+            let mut f = std::fs::OpenOptions::new().append(true).open(format!("{out_dir}/shard_{last}.txt")).unwrap();
+            f.write_all(s.as_bytes()).unwrap();
+        }
     }
     for r in rows { let _ = writeln!(ids_txt, "{:016x}{:016x} {}", r.hi, r.lo, r.rust); }
     std::fs::write(format!("{out_dir}/ids.txt"), &ids_txt).unwrap();
@@ -740,8 +858,6 @@ fn main() {
     std::fs::write(format!("{out_dir}/queries.txt"), &q_txt).unwrap();
     let (asked, alias_bad) = engine_aliasing(seed);
 
-    // ---- block-scoped items
-    let bs = block_scoped();
 
     // ---- distribution
     let mut depth = [0usize; 8];
@@ -770,15 +886,16 @@ fn main() {
 \"groups\":{{{groups}}},\"depth\":[{}],\"names\":{},\"with_derived\":{n_der},\
 \"queries\":{},\"query_types\":{},\"query_bad\":[{}],\"query_same_key_hash_other_type\":{q_same_hash_diff_type},\
 \"engine_queries\":{asked},\"engine_aliasing\":[{}],\
-\"block_scoped\":[{}],\"samples\":[{}]}}",
+\"block_scoped\":[{}],\"twin_cases\":{twin_cases},\"free_cases\":{free_n},\"free_distinct\":{},\"free_name_lengths_hit\":{},\"samples\":[{}]}}",
         by_id.len(), by_term.len(), collisions.join(","), dup_terms.join(","),
         perm_bad.join(","), perm_sample.join(","),
         depth.iter().map(|d| d.to_string()).collect::<Vec<_>>().join(","), heads.len(),
         qrows.len(), qrows.iter().map(|q| &q.ty).collect::<BTreeSet<_>>().len(),
         qbad.iter().map(|s| jstr(s)).collect::<Vec<_>>().join(","),
         alias_bad.iter().map(|s| jstr(s)).collect::<Vec<_>>().join(","),
-        bs.iter().map(|(x, y, a, b)| format!("{{\"first\":{},\"second\":{},\"id_first\":\"{:032x}\",\"id_second\":\"{:032x}\",\"equal\":{}}}",
+        bs.iter().map(|(x, y, a, b, _)| format!("{{\"first\":{},\"second\":{},\"id_first\":\"{:032x}\",\"id_second\":\"{:032x}\",\"equal\":{}}}",
             jstr(x), jstr(y), a.as_u128(), b.as_u128(), a == b)).collect::<Vec<_>>().join(","),
+        free_distinct.len(), free_lens.iter().filter(|c| **c > 0).count(),
         sample_rows.join(","),
     );
 }
